@@ -120,8 +120,9 @@ def events(b):
         if r["k"] == "agg" and r.get("ak") == "adt" and r["adt"].split("::")[-1] in ("Bvf", "Bvd"):
             names = r["fnames"]
             fs = [b.e_operand(o) for o in r["fs"]]
+            dest = pe if p["pr"] else ("var", b.local_name(p["l"]), p["l"])
             out.append(Ev("agg", (bb, i), adt=r["adt"].split("::")[-1], data=fs[names.index("data")],
-                          length=fs[names.index("length")], dest=pe))
+                          length=fs[names.index("length")], dest=dest))
             continue
         if not p["pr"]:
             continue
@@ -177,3 +178,21 @@ def is_zero_data(e):
     if e[0] == "phi":
         return all(is_zero_data(x) for x in e[2])
     return False
+
+
+def subst_closure(crate, e):
+    """('closure', path, captured) -> return expression of the closure body with its captured
+    variables (`_1.k`) replaced by the captured expressions of the creation site; None if unknown"""
+    cb = crate.body(e[1])
+    if cb is None:
+        return None
+    caps = e[2]
+
+    def sub(x):
+        if not isinstance(x, tuple):
+            return x
+        if x and x[0] == "field" and x[1] == ("param", cb.local_name(1)) and x[2].isdigit() and int(x[2]) < len(caps):
+            return caps[int(x[2])]
+        return tuple(sub(y) if isinstance(y, tuple) else y for y in x)
+
+    return sub(cb.return_expr()), cb
